@@ -558,15 +558,52 @@ def r5_model(check, prog):
                   '[scatterer], parameters); theory = the saved theory; the optics and '
                   'model maps are read with the saved parameters and passed as keywords',
                   loc, fail_detail=detail)
-    nm = [e for e in it.effects if e['kind'] == 'setattr' and
-          e['attr'] == '_parameter_names']
-    okn = fterm is not None and len(nm) == 1 and nm[0]['value'] == F('_parameter_names') \
-        and len(nm[0]['cond']) == 1 and nm[0]['cond'][0][1] is True and \
-        nm[0]['cond'][0][0][0] == 'cmp' and nm[0]['cond'][0][0][1] == '==' and \
-        F('_parameters') in (nm[0]['cond'][0][0][2], nm[0]['cond'][0][0][3])
-    check.require(okn, 'R5-model-rebuild', 'Model.from_yaml parameter names',
-                  'the saved names (ties, renames) are restored when the rebuilt '
-                  'model has the saved parameters', loc)
+    # R5-model-state-restored: the three pieces of state that carry names, ties
+    # and the value-to-place mapping are, on every return path, the saved ones -
+    # either stored from the file, or left as rebuilt only on a path where the
+    # rebuilt parameter list was compared equal to the saved one
+    def attr_leaves(t, a, cond=()):
+        if t[0] == 'upd' and t[2] == 'attr':
+            if t[3] == a:
+                return [(cond, t[4])]
+            return attr_leaves(t[1], a, cond)
+        if t[0] == 'ite':
+            return attr_leaves(t[2], a, cond + ((t[1], True),)) + \
+                attr_leaves(t[3], a, cond + ((t[1], False),))
+        return [(cond, None)]
+
+    def compared_equal(cond):
+        for c, pol in cond:
+            if c[0] == 'cmp' and c[1] in ('==', '!=') and \
+                    pol is (c[1] == '==') and fterm is not None and \
+                    F('_parameters') in (c[2], c[3]):
+                other = c[3] if c[2] == F('_parameters') else c[2]
+                # the engine shows the rebuilt list as what the constructor
+                # stored (Mapper().parameters); any non-constant partner counts
+                if other[0] != 'const':
+                    return True
+        return False
+    rets = [o for o in res.outcomes if o.kind == 'return' and o.value is not None]
+    check.floor('Model.from_yaml return paths', len(rets), 1)
+    for a in ('_parameters', '_parameter_names', '_maps'):
+        bad = []
+        for o in rets:
+            for cond, v in attr_leaves(o.value, a):
+                full = tuple(o.cond) + cond
+                if fterm is not None and v == F(a):
+                    continue
+                if v is None and a != '_parameter_names' and compared_equal(full):
+                    continue
+                bad.append('%s is %s when %s' % (
+                    a, 'whatever the constructor rebuilt' if v is None
+                    else show(v)[:60],
+                    ' and '.join(('' if pol else 'not ') + show(c)[:70]
+                                 for c, pol in full) or 'always'))
+        check.require(not bad, 'R5-model-state-restored',
+                      'Model.from_yaml ' + a,
+                      'the reloaded model carries the saved %s on every return '
+                      'path (or the rebuilt one, compared equal to the saved '
+                      'parameter list)' % a, loc, fail_detail='; '.join(bad)[:300])
     check.floor('keys written by Model._iteritems', len(written), 5)
     check.floor('keys read by Model.from_yaml', len(fields_reads), 4)
     for k in sorted(fields_reads):
